@@ -23,6 +23,7 @@
 //! moderate cardinalities.
 
 use crate::common::NumStdDev;
+use crate::error::Error;
 use crate::hll::composite_interpolation;
 use crate::hll::cubic_interpolation;
 use crate::hll::harmonic_numbers;
@@ -314,6 +315,55 @@ impl HipEstimator {
 }
 
 /// Compute 1 / 2^value (inverse power of 2)
+/// Checks the cached quantities of a deserialized HLL array against its registers.
+///
+/// The header of an image carries values that are functions of the register array (the number
+/// of registers at cur_min and the two KxQ sums) plus the HIP accumulator. A reader that trusts
+/// them blindly ends up with an inconsistent sketch whose counters underflow on the next
+/// update, so they are recomputed and compared.
+pub(super) fn check_cached_values(
+    registers: impl Iterator<Item = u8>,
+    cur_min: u8,
+    num_at_cur_min: u32,
+    hip_accum: f64,
+    kxq0: f64,
+    kxq1: f64,
+) -> Result<(), Error> {
+    let mut count = 0u32;
+    let mut sum0 = 0.0;
+    let mut sum1 = 0.0;
+    for value in registers {
+        if value > 63 || value < cur_min {
+            return Err(Error::deserial(format!(
+                "corrupted: register value {value} out of range [{cur_min}, 63]"
+            )));
+        }
+        if value == cur_min {
+            count += 1;
+        }
+        if value < 32 {
+            sum0 += inv_pow2(value);
+        } else {
+            sum1 += inv_pow2(value);
+        }
+    }
+    if count != num_at_cur_min {
+        return Err(Error::deserial(format!(
+            "corrupted: {count} registers hold cur_min but num_at_cur_min is {num_at_cur_min}"
+        )));
+    }
+    let close = |a: f64, b: f64| (a - b).abs() <= 1e-9 * a.abs().max(b.abs());
+    if !(close(kxq0, sum0) && close(kxq1, sum1)) {
+        return Err(Error::deserial(
+            "corrupted: KxQ registers do not match the register array",
+        ));
+    }
+    if !(hip_accum.is_finite() && hip_accum >= 0.0) {
+        return Err(Error::deserial("corrupted: invalid HIP accumulator"));
+    }
+    Ok(())
+}
+
 #[inline]
 fn inv_pow2(value: u8) -> f64 {
     if value == 0 {
